@@ -66,7 +66,9 @@ def build_argv(spec: dict[str, Any], root: str) -> list[str]:
         return ["x816"] + [a.replace("$ROOT", root) for a in spec["argv"]]
     src = _p(spec["src"], spec, root)
     out = _p(spec["out"], spec, root)
-    opts: list[list[str]] = [["-o", out]]
+    opts: list[list[str]] = [] if spec.get("no_output_opt") else [["-o", out]]
+    if spec.get("verbose"):
+        opts.append(["--verbose"])
     if spec.get("format") is not None:
         opts.append(["-f", spec["format"]])
     if spec.get("mapping") is not None:
